@@ -5,7 +5,9 @@ from .. import core, csegen
 
 RULE = ("random chunks: uint32/uint64, 1-3 channels, extents smaller than / equal to / multiple of / one more "
         "than the block, blocks from {1,2,3,4,8}^3 incl. non-cubic, label distributions const / 2 / 3-4 / "
-        "5-16 / 17-256 / 257+ labels / arange / shared background / blocky / labels >= 2^32 and 2^53; the "
+        "5-16 / 17-256 / 257+ labels / arange / shared background / blocky / labels >= 2^32 and 2^53, handed "
+        "over in C order, Fortran order, as a transposed view, as a window of a larger array, big-endian or "
+        "read-only; the "
         "bytes of the REAL encoder are decoded by Lean's specification decoder (oracle) and compared with "
         "Lean's encoder model byte for byte; the real decoder is compared with Lean's implDecode. "
         "Trivial = constant chunk.")
@@ -31,12 +33,31 @@ def run(ctx):
         if ekey not in encoders:
             encoders[ekey] = CompressedSegmentationEncoder(dt, C, list(bs))
         enc = encoders[ekey]
-        a_before = a.copy()
+        # the same logical array in the memory layouts callers produce (a volume held as XYZC and presented
+        # transposed, Fortran order, a window of a larger array, big-endian file data, read-only memory maps)
+        layout = rng.choice(["c", "c", "fortran", "transposed", "window", "big-endian", "read-only"])
+        if layout == "fortran":
+            a_in = np.asfortranarray(a)
+        elif layout == "transposed":
+            a_in = np.ascontiguousarray(a.T).T
+        elif layout == "window":
+            big_ = np.zeros(tuple(d + 2 for d in a.shape), dtype=a.dtype)
+            big_[1:-1, 1:-1, 1:-1, 1:-1] = a
+            a_in = big_[1:-1, 1:-1, 1:-1, 1:-1]
+        elif layout == "big-endian":
+            a_in = a.astype(a.dtype.newbyteorder(">"))
+        elif layout == "read-only":
+            a_in = a.copy()
+            a_in.setflags(write=False)
+        else:
+            a_in = a
+        desc["layout"] = layout
+        ctx.hist("memory_layout", layout)
+        a_before = a_in.copy()
         try:
-            buf = bytes(enc.encode(a))
-            if not np.array_equal(a, a_before):
+            buf = bytes(enc.encode(a_in))
+            if not np.array_equal(a_in, a_before):
                 ctx.oracle_fail("the encoder modified the chunk it was given", desc)
-                a = a_before
         except Exception as exc:  # noqa
             ctx.oracle_fail(f"encoder raised {type(exc).__name__}: {exc}", dict(desc, data=a.ravel().tolist()))
             continue
